@@ -580,21 +580,22 @@ Qed.
 Theorem map_drain_ledger j s :
   lite s ->
   wpp (map_drain j false)
-      (fun out s' => exists l, out = map elem3 (firstn (N.to_nat j) l) /\
+      (fun out s' => exists l s1, drain_order s = Ok l s1 /\ out = map elem3 (firstn (N.to_nat j) l) /\
          lite s' /\ elems (s_rt s') = [] /\
          dks s' = rev (map ekid (skipn (N.to_nat j) l)) ++ dks s /\
          dvs s' = rev (map ev (skipn (N.to_nat j) l)) ++ dvs s) TT s.
 Proof.
   intros Hs. unfold map_drain. apply wpp_bind. unfold getm, gets, wpp at 1. cbn.
   apply wpp_bind. unfold getlo, gets, wpp at 1. cbn.
-  apply wpp_bind. eapply wpp_mono; [apply rp_wpp, rp_drain_order|]. cbn beta. intros l s1 (Hr1 & Hk1 & Hv1 & _).
+  apply wpp_bind. unfold wpp at 1. pose proof (rp_drain_order s) as Hrp.
+  destruct (drain_order s) as [l s1|p s1|f] eqn:Ed; [|exact I|exact I]. destruct Hrp as (Hr1 & Hk1 & Hv1 & _).
   apply wpp_bind. unfold setlo, modify, wpp at 1. cbn.
   apply wpp_bind. apply wpp_bind. eapply wpp_mono; [apply drop_elems_ledger|]. cbn beta. intros _ s2 (Hr2 & Hk2 & Hv2).
   apply wpp_bind.
   assert (Hfree : forall b s0, wpp (when b tick_free) (fun _ s' => s_rt s' = s_rt s0 /\ dks s' = dks s0 /\ dvs s' = dvs s0) TT s0).
   { intros b s0. destruct b; cbn [when]; [|apply wpp_ret; auto]. unfold tick_free, tick, modify, wpp, dks, dvs. cbn. auto. }
   eapply wpp_mono; [apply Hfree|]. cbn beta. intros _ s3 (Hr3 & Hk3 & Hv3).
-  unfold setm, modify, bind, ret, wpp. cbn. exists l. split; [reflexivity|].
+  unfold setm, modify, bind, ret, wpp. cbn. exists l, s1. split; [exact Ed|]. split; [reflexivity|].
   unfold lite, elems, dks, dvs in *. cbn. rewrite Hr3, Hr2. cbn. rewrite map_to_list_empty. cbn.
   split; [split; [apply hbc_empty|exact I]|]. split; [reflexivity|]. rewrite Hk3, Hk2, Hv3, Hv2. cbn. rewrite Hk1, Hv1. auto.
 Qed.
@@ -603,14 +604,15 @@ Qed.
 Theorem map_into_iter_ledger j s :
   lite s ->
   wpp (map_into_iter j)
-      (fun out s' => exists l, out = map elem3 (firstn (N.to_nat j) l) /\
+      (fun out s' => exists l s1, drain_order s = Ok l s1 /\ out = map elem3 (firstn (N.to_nat j) l) /\
          lite s' /\ elems (s_rt s') = [] /\
          dks s' = rev (map ekid (skipn (N.to_nat j) l)) ++ dks s /\
          dvs s' = rev (map ev (skipn (N.to_nat j) l)) ++ dvs s) TT s.
 Proof.
   intros Hs. unfold map_into_iter. apply wpp_bind. unfold getm, gets, wpp at 1. cbn.
   apply wpp_bind. unfold getlo, gets, wpp at 1. cbn.
-  apply wpp_bind. eapply wpp_mono; [apply rp_wpp, rp_drain_order|]. cbn beta. intros l s1 (Hr1 & Hk1 & Hv1 & _).
+  apply wpp_bind. unfold wpp at 1. pose proof (rp_drain_order s) as Hrp.
+  destruct (drain_order s) as [l s1|p s1|f] eqn:Ed; [|exact I|exact I]. destruct Hrp as (Hr1 & Hk1 & Hv1 & _).
   apply wpp_bind. eapply wpp_mono; [apply drop_elems_ledger|]. cbn beta. intros _ s2 (Hr2 & Hk2 & Hv2).
   apply wpp_bind.
   assert (Hfree : forall b s0, wpp (when b tick_free) (fun _ s' => s_rt s' = s_rt s0 /\ dks s' = dks s0 /\ dvs s' = dvs s0) TT s0).
@@ -620,7 +622,7 @@ Proof.
   assert (Hhf : forall t0 s0, wpp (hb_free t0) (fun _ s' => s_rt s' = s_rt s0 /\ dks s' = dks s0 /\ dvs s' = dvs s0) TT s0).
   { intros t0 s0. unfold hb_free. apply Hfree. }
   eapply wpp_mono; [apply Hhf|]. cbn beta. intros _ s4 (Hr4 & Hk4 & Hv4).
-  unfold setlo, setm, modify, bind, wpp. cbn. exists l. split; [reflexivity|].
+  unfold setlo, setm, modify, bind, wpp. cbn. exists l, s1. split; [exact Ed|]. split; [reflexivity|].
   unfold lite, elems, dks, dvs in *. cbn. rewrite map_to_list_empty. cbn.
   split; [split; [apply hbc_new|exact I]|]. split; [reflexivity|]. rewrite Hk4, Hk3, Hk2, Hv4, Hv3, Hv2, Hk1, Hv1. auto.
 Qed.
